@@ -350,6 +350,30 @@ def run_ibd(case, ctx):
     check_ibd(ctx, tskit, spec, obj, case)
 
 
+# ------------------------------------------------------------------ larger shapes (internal queue growth etc.)
+def enum_large(tier, seed):
+    sizes = [65, 80, 130] if tier == "quick" else [64, 65, 80, 129, 130, 200, 260]
+    for shape in ("comb", "balanced", "star"):
+        for k in sizes:
+            for store in ("segments", "pairs", "both"):
+                yield dict(shape=shape, k=k, store=store, api="ts" if k % 2 else "tables")
+
+
+def run_large(case, ctx):
+    """More than 64 / 128 requested lineages below one node: sizes the random generator never reaches."""
+    import tskit
+
+    from ._shapes import shape_spec
+
+    spec = shape_spec(case["shape"], case["k"], internal_samples=(case["k"] % 2 == 0))
+    tables = gen.build_tables(spec, tskit)
+    obj = tables.tree_sequence() if case["api"] == "ts" else tables
+    ctx.nt(True)
+    ctx.label("shape:" + case["shape"])
+    full = dict(spec=spec, req=dict(mode="default"), min_span=None, max_time=None, store=case["store"], api=case["api"])
+    check_ibd(ctx, tskit, spec, obj, full, label=False)
+
+
 # ------------------------------------------------------------------ exhaustive small scope
 def enum_small(tier, seed):
     """All forests (node u's parent is an older node or none; times = ids) on n nodes for every one of
@@ -417,6 +441,8 @@ SUBCHECKS = [
                      "ancestor_pair": 0.15, "min_span_cuts": 0.08, "max_time_cuts": 0.06,
                      "filter_cuts_some_keeps_some": 0.02,
                      "mode_between": 0.12, "mode_within": 0.15, "nonsample_requested": 0.08}),
+    SubCheck("C19.large_shapes", run_large, enumerate=enum_large, quick=1, thorough=1,
+             rule="comb / balanced / star trees with 65-130 (thorough: up to 260) samples, all sample pairs, three store modes"),
     SubCheck("C19.exhaustive_small", run_small, enumerate=enum_small, quick=1, thorough=1,
              rule="every forest sequence on n<=4 nodes x <=3 unit intervals [thorough: also n=5 x <=2], "
              "edges merged or split at every breakpoint; within=all nodes, default samples with min_span=1, "
